@@ -8,6 +8,7 @@ INVARIANT ClientRunsWhenAllowed
 INVARIANT FailedPatchLeavesNoDir
 INVARIANT SecondRunNeverAcceptsHalfPrepared
 INVARIANT SecondRunSameVerdict
+INVARIANT AnyDiffOfSeriesFails
 INVARIANT MachineEqualsFunction
 CHECK_DEADLOCK FALSE
 POSTCONDITION EmitScenarios
